@@ -15,8 +15,8 @@ pub struct C18;
 
 fn n_cases(tier: Tier) -> u64 {
     match tier {
-        Tier::Quick => 1_000,
-        Tier::Thorough => 6_000,
+        Tier::Quick => 6_000,
+        Tier::Thorough => 80_000,
     }
 }
 
